@@ -233,7 +233,7 @@ fn crash_targets(ctx: &Ctx, rep: &mut Report, mode: Mode, rec: &Recorded, work: 
 	let mut targets: Vec<(usize, &'static str)> = vec![];
 	for (i, a) in rec.acts.iter().enumerate() {
 		match a {
-			Act::Step(_) => targets.push((i, "step")),
+			Act::Step(_) | Act::Nested(..) => targets.push((i, "step")),
 			Act::Restart => {
 				targets.push((i, "drop"));
 				targets.push((i, "open"));
@@ -261,7 +261,16 @@ fn crash_targets(ctx: &Ctx, rep: &mut Report, mode: Mode, rec: &Recorded, work: 
 	// are waiting (log ids get recycled, so file order != record order) are always taken and
 	// swept densely: few boundaries, each of them a distinct ordering hazard.
 	let dirty_of = |i: usize| -> u32 { rec.shape_before[i].split('d').nth(1).and_then(|s| s.chars().next()).and_then(|c| c.to_digit(10)).unwrap_or(0) };
-	let is_reclaim = |t: &(usize, &'static str)| -> bool { t.1 == "step" && matches!(rec.acts[t.0], Act::Step(Step::CleanLogs)) && dirty_of(t.0) >= 2 };
+	let is_reclaim = |t: &(usize, &'static str)| -> bool {
+		t.1 == "step" &&
+			match &rec.acts[t.0] {
+				Act::Step(Step::CleanLogs) => dirty_of(t.0) >= 2,
+				// a cleanup racing with the commit stage, or a cleanup run inside another step
+				Act::Nested(Step::CleanLogs, _) => dirty_of(t.0) >= 1,
+				Act::Nested(_, n) => n.inner.contains(&Step::CleanLogs) && dirty_of(t.0) >= 1,
+				_ => false,
+			}
+	};
 	let max_targets = ctx.tier.pick(14, 10_000);
 	if targets.len() > max_targets {
 		let (mut keep, mut rest): (Vec<_>, Vec<_>) = targets.into_iter().partition(|t| is_reclaim(t));
@@ -430,6 +439,15 @@ fn crash_child(mode: Mode, rec: &Recorded, dir: &Path, act: usize, phase: &'stat
 			Act::Step(s) => {
 				dbutil::do_step(d, *s).expect("step in re-run");
 			},
+			Act::Nested(s, n) => {
+				interpose::set_r2_suspended(*s == Step::CleanLogs);
+				let (r, out) = dbutil::do_step_nested(d, *s, n);
+				interpose::set_r2_suspended(false);
+				r.expect("nested step in re-run");
+				if let Some(e) = out.inner_err {
+					panic!("inner step in re-run: {}", e);
+				}
+			},
 			Act::Restart => {
 				dbutil::make_drop_legal(d).expect("pre-drop in re-run");
 				drop(db.take());
@@ -462,6 +480,19 @@ fn crash_child(mode: Mode, rec: &Recorded, dir: &Path, act: usize, phase: &'stat
 			match a {
 				Act::Commit(tx) => d.commit_changes(tx.iter().map(|o| o.to_db()).collect::<Vec<_>>()).expect("commit"),
 				Act::Step(s) => dbutil::do_step(d, *s).expect("step"),
+				Act::Nested(s, n) => {
+					interpose::set_r2_suspended(*s == Step::CleanLogs);
+					let (r, out) = dbutil::do_step_nested(d, *s, n);
+					interpose::set_r2_suspended(false);
+					r.expect("nested step");
+					if let Some(e) = out.inner_err {
+						panic!("inner step: {}", e);
+					}
+					if out.fired {
+						bump(&mut counts, "nested_schedules_fired", 1);
+						bump(&mut counts, &format!("nested_site_{}", n.site), 1);
+					}
+				},
 				Act::Restart => {
 					dbutil::make_drop_legal(d).expect("pre-drop");
 					drop(db.take());
@@ -480,6 +511,24 @@ fn crash_child(mode: Mode, rec: &Recorded, dir: &Path, act: usize, phase: &'stat
 			match r {
 				Ok(()) => completed = true,
 				Err(e) => fault_err = Some(e),
+			}
+		},
+		("step", Act::Nested(s, n)) => {
+			let d = db.as_ref().unwrap();
+			interpose::set_r2_suspended(*s == Step::CleanLogs);
+			parity_db::set_number_of_allowed_io_operations(k as usize);
+			let (r, out) = dbutil::do_step_nested(d, *s, n);
+			parity_db::set_number_of_allowed_io_operations(usize::MAX);
+			interpose::set_r2_suspended(false);
+			if out.fired {
+				bump(&mut counts, "cut_inside_nested_schedule", 1);
+			}
+			match (r, out.inner_err) {
+				(Ok(()), None) => completed = true,
+				(Err(e), _) => fault_err = Some(e),
+				// the fault hit an inner step and the outer step had no file operation left: the
+				// error belongs to the worker that ran the inner step
+				(Ok(()), Some(e)) => fault_err = Some(parity_db::Error::InvalidInput(format!("inner step failed: {}", e))),
 			}
 		},
 		("drop", Act::Restart) => {
@@ -738,7 +787,7 @@ fn fault_flow(
 		},
 	};
 	bump("faults_injected");
-	if let Act::Step(s) = &rec.acts[act] {
+	if let Act::Step(s) | Act::Nested(s, _) = &rec.acts[act] {
 		bump(match s {
 			Step::ProcessCommits => "fault_in_process_commits",
 			Step::ProcessReindex => "fault_in_reindex",
